@@ -153,6 +153,8 @@ def case_sched(events):
             sched.append(["await", e["t"]])
         elif e["k"] == "rel":
             sched.append(["rel", e["t"]])
+        elif e["k"] == "srel":
+            sched.append(["srel", e["t"]])
     return sched
 
 
@@ -175,7 +177,7 @@ def report(ctx, leg, mism, replay_of):
 def run(ctx):
     q = ctx.quick
     ctx.rule = ("G: one case = one controlled schedule (sequence of acq/await/try/rel commands over 3 tasks) emitted by TLC "
-                "from SpinSched and replayed on the real lock; T: one case = one window of 2-16 OS threads x N random "
+                "from SpinSched (incl. a stray Release on a free lock) and replayed on the real lock; T: one case = one window of 2-16 OS threads x N random "
                 "Acquire/TryToAcquire/Release operations on one real lock; distinct by full event sequence; every case "
                 "contains at least one successful acquisition and is therefore non-trivial")
     ctx.assumptions += [
@@ -194,7 +196,8 @@ def run(ctx):
     ctx.model_check(d, "MCSpinlock", "MCSpinlock3", timeout=600)
     if not q:
         ctx.model_check(d, "MCSpinlock", "MCSpinlock4", timeout=900)
-    for b in (["ReleaseStoresOne", "TryLies"] if q else ["ReleaseStoresOne", "TryLies", "TryFailClobbers", "NonAtomicXchg"]):
+    for b in (["ReleaseStoresOne", "TryLies", "ReleaseDecrements"] if q else
+              ["ReleaseStoresOne", "TryLies", "TryFailClobbers", "NonAtomicXchg", "ReleaseDecrements"]):
         ctx.expect_model_violation(d, "MCSpinlock", "MCSpinlockBug_" + b, timeout=300)
     if not q:
         tlaps(ctx, d)
@@ -240,7 +243,7 @@ def run(ctx):
     ctx.cov["exhaustive"] = (not q) and not ctx.violations and len(lines) == total
     ctx.cov["explanation"] = ("exhaustive = every controlled schedule of the SpinSched scope (3 tasks, %d commands) was replayed on the "
                               "real lock and every interleaving of the extracted instruction table was explored in the stated scopes; "
-                              "the quick tier replays a seeded sample of the schedules" % (8 if q else 10))
+                              "the quick tier replays a seeded sample of the schedules" % (8 if q else 9))
 
 
 def dynamic_legs(ctx, d, q):
